@@ -61,6 +61,9 @@ def gen_ops():
     # returns (message and chain of positions) is the same every time the loaded scripts are run
     add("run_use_badregex", 'probe(1)\nif true {\nuse("b.p")\n}', pt=STD_PT, extra={"b.p": 'probe(2)\nreplace(fs, "(", "X")\nprobe(3)'})
     add("run_use_callee_err", 'probe(1)\nuse("b.p")', pt=STD_PT, extra={"b.p": 'use("c.p")', "c.p": 'add_key(kq, 1 + nil)'})
+    # a run that fails while a call is collecting its arguments (some already evaluated), and runs that format values afterwards
+    add("run_err_in_call_args", 'l2 = [1]\nprintf("%v %v %v;", 7, "stale", l2[5])\nprobe(9)', pt=STD_PT)
+    add("run_strfmt", 'strfmt(out, "%v-%v", fs, "y")\nprintf("%v|", fi)\nprobe(out)', pt=STD_PT)
     # reads every name an earlier script assigned (they must all be the point's keys or nil here)
     add("run_ok", 'probe(r, x, k, c, kb, nf, t2, lvl, l, w, q, i, v, ev, cv, z, zz, y1)\nadd_key(r, "second")\nprobe(fi, fs, tg, fb, message, _)', pt=STD_PT)
     return ops
